@@ -197,6 +197,23 @@ def coq_build(prop_file: str, theorems, timeout=1500):
     return res
 
 
+def coqchk(prop_file: str, timeout=1500):
+    """thorough tier: re-check the compiled property module and everything it depends on with Coq's independent checker"""
+    mod = "Strum." + prop_file[:-2].replace("/", ".")
+    r = sh(["timeout", str(timeout), "coqchk", "-o", "-silent", "-Q", COQ, "Strum", mod], cwd=COQ, timeout=timeout + 60)
+    out = r.stdout + r.stderr
+    res = {"ran": True, "rc": r.returncode, "axioms": None}
+    m = re.search(r"\* Axioms:\s*(.*?)\n\s*\n", out, re.S)
+    if m:
+        res["axioms"] = m.group(1).strip()
+    for key, pat in (("type_in_type", r"type-in-type:\s*(\S.*)"), ("unsafe_fixpoints", r"unsafe \(co\)fixpoints:\s*(\S.*)"),
+                     ("assumed_positivity", r"positivity is assumed:\s*(\S.*)")):
+        mm = re.search(pat, out)
+        res[key] = mm.group(1).strip() if mm else None
+    res["ok"] = r.returncode == 0 and res["axioms"] == "<none>" and all(res[k] == "<none>" for k in ("type_in_type", "unsafe_fixpoints", "assumed_positivity"))
+    return res
+
+
 def ensure_model_driver():
     r = sh("make", cwd=EXTRACT, timeout=600)
     if r.returncode != 0:
